@@ -85,6 +85,20 @@ mod verif_replay_m {
             let m = MultiRef::new(l.clone());
             let c = m.clone();
             if !Arc::ptr_eq(&*m, &*c) { println!("M|clone-shares|{l:?}|clone copied the value"); }
+            // history: the verdict may not depend on how many clones are alive, nor on what was done with the wrapper before
+            for r in [None, Some(Rc::new(Restrictions { min_length: Some(1), ..Default::default() }))] {
+                let a = l.check_restrictions(r.clone()).is_ok();
+                let shared = m.check_restrictions(r.clone()).is_ok();
+                let shared_c = c.check_restrictions(r.clone()).is_ok();
+                let again = m.check_restrictions(r.clone()).is_ok();
+                if a != shared || a != shared_c || a != again { println!("M|check-restrictions|{l:?}|bare ok={a}, with a live clone: wrapped ok={shared}, the clone ok={shared_c}, second call ok={again}"); }
+                if yaserde::ser::to_string(&m).ok() != yaserde::ser::to_string(&l).ok() || yaserde::ser::to_string(&c).ok() != yaserde::ser::to_string(&l).ok() {
+                    println!("M|root-serialize|{l:?}|with a live clone the wrapped text differs from the bare text");
+                }
+            }
+            drop(c);
+            let after = m.check_restrictions(None).is_ok();
+            if after != l.check_restrictions(None).is_ok() { println!("M|check-restrictions|{l:?}|after dropping the clone: wrapped ok={after}"); }
         }
         // documents the bare type rejects (missing required member, wrong root, broken nesting) must be rejected when wrapped, too
         {
